@@ -190,7 +190,7 @@ func c20GenLlama(t *rapid.T) c20Case {
 	c.AddBOS = rapid.IntRange(0, 3).Draw(t, "addbos") > 0
 	c.AddEOS = rapid.IntRange(0, 3).Draw(t, "addeos") == 0
 	c.Parts = c20GenParts(t, "", c20LlamaLiterals())
-	c.Long = c20MaybeLong(t, c20LlamaLiterals())
+	c.Long = c20MaybeLong(t)
 	return c
 }
 
@@ -303,7 +303,7 @@ func c20GenSynth(t *rapid.T) c20Case {
 	if rapid.IntRange(0, 5).Draw(t, "drop") == 0 {
 		c.DropEvery = rapid.IntRange(1, 4).Draw(t, "dropevery")
 	}
-	c.Long = c20MaybeLong(t, c20SynthSpecials)
+	c.Long = c20MaybeLong(t)
 	return c
 }
 
